@@ -663,7 +663,7 @@ class Runner:
         res = self.res
         res["obligations"] += 1
         c = raw(cond)
-        if res["violations"]:
+        if res["violations"] or (self.params.get("probe") and res.get("known_hits")):
             # one reproduced violation per work item is enough; do not spend time on the rest
             res["skipped_after_violation"] = res.get("skipped_after_violation", 0) + 1
             res["discharged"] += 0
@@ -693,6 +693,8 @@ class Runner:
             res["inconclusive"].append({"obligation": name, "reason": "solver-unknown", "path": _trace_str(ex.trace)})
         else:
             verdict = self._counterexample(h, name, ex)
+            if verdict == "unsat":
+                res["discharged"] += 1
         ex.solver.pop()
         ex.solver.set("timeout", self.check_timeout_ms)
         if len(res["samples"]) < 3 or (verdict not in ("unsat",) and len(res["samples"]) < 8):
@@ -759,6 +761,11 @@ class Runner:
             if not blk:
                 break
             ex.solver.add(z3.Or(blk))
+        # No model reproduced.  z3's nonlinear 'sat' answers are not always backed by an exact model: ask the complete
+        # procedures once more on the same assertions; 'unsat' there settles the obligation.
+        if self._retry_unknown(ex) == "unsat":
+            self.res["bogus_sat"] = self.res.get("bogus_sat", 0) + 1
+            return "unsat"
         self.res["inconclusive"].append({"obligation": name, "reason": "model-only-counterexample", "last_replay": last,
                                          "path": _trace_str(ex.trace)})
         return "sat-model-only"
@@ -770,6 +777,8 @@ class Runner:
             # a listed (open) known finding: recorded, not reported as a new violation, exploration continues
             v["known_id"] = kid
             self.res.setdefault("known_hits", []).append(v)
+            if self.params.get("probe"):
+                self.ex.stop = True      # probe items only confirm that a listed finding is still there
             return
         self.res["violations"].append(v)
         self.ex.stop = True   # one reproduced violation per work item is enough
